@@ -29,7 +29,7 @@ def scenario(args):
     try:
         d.mutate()
         d.mutate()
-        fault = ("fail", k) if kind == "fail" else None
+        fault = ("fail", k) if kind == "fail" else ("deny", 0) if kind == "deny" else None
         contend = k if kind == "contend" else None
         fired = False
         f, n = d.start_schedule(fault if pos == 0 else None, contend if pos == 0 else None)
@@ -84,6 +84,9 @@ def run(tier):
                         jobs.append((ext, flavour, "fail", pos, k, check_load, len(jobs)))
                         if k >= nops - 5:       # renames / remove: also with a symlinked persistence file
                             jobs.append((ext, flavour, "fail", pos, k, check_load, len(jobs), True))
+                # the location is not writable at that attempt (the save gives up at its pre-check without raising)
+                for check_load in (False, True, "quiet"):
+                    jobs.append((ext, flavour, "deny", pos, 0, check_load, len(jobs)))
                 for k in range(0, 8 if tier == "quick" else 14):
                     jobs.append((ext, flavour, "contend", pos, k, False, len(jobs)))
                     jobs.append((ext, flavour, "contend", pos, k, True, len(jobs)))
@@ -108,7 +111,7 @@ def run(tier):
         rep.violation(sig, {"cfg": c, "script": r["trace"]["script"], "rejected_at": r["index"],
                             "events": [e["a"] + ("(noticed)" if e.get("noticed") else "") +
                                        (f"->{e['loaded']}" if e["a"] == "StartUp" else "") for e in r["trace"]["ev"]]})
-    rep.cov["rule"] = ("both formats x {threaded, asyncio} x position 0..2 of the disturbed save in the schedule x (failing operation index k | "
+    rep.cov["rule"] = ("both formats x {threaded, asyncio} x position 0..2 of the disturbed save in the schedule x (failing operation index k | location not writable | "
                        "inbound message at serialiser call k) x {continue until the next successful save, then crash+load | crash+load "
                        "right after the disturbed attempt}. Every trace is non-trivial; distinct by those parameters.")
     if traces:
